@@ -10,6 +10,11 @@ Definition recorder := list (Z * slog).
 (* outputs: blocks sorted by SSRC *)
 Definition report := list rblock.
 
+(* observable projection of a report block: (ssrc, begin, metric blocks as numbers) *)
+Definition oblock := (Z * Z * list Z)%type.
+Definition enc_block (b : rblock) : oblock :=
+  let '(ssrc, begin, mbs) := b in (ssrc, begin, map enc_mb mbs).
+
 Inductive c08op :=
 | Add (ts ssrc seq ecn : Z)        (* Recorder.AddPacket *)
 | Build (now maxSize : Z)          (* Recorder.BuildReport *)
